@@ -37,44 +37,80 @@ var fedFuncList = []struct{ file, name string }{
 }
 
 func fedFuncFacts(repo string, w *bytes.Buffer) error {
-	fset := token.NewFileSet()
-	files := map[string]*ast.File{}
-	var names, hs []string
-	for _, e := range fedFuncList {
-		f := files[e.file]
-		if f == nil {
-			var err error
-			f, err = parser.ParseFile(fset, filepath.Join(repo, "plugin", "federation", e.file), nil, 0)
-			if err != nil {
-				return err
-			}
-			files[e.file] = f
-		}
-		var found *ast.FuncDecl
-		for _, d := range f.Decls {
-			fd, ok := d.(*ast.FuncDecl)
-			if !ok || fd.Body == nil {
-				continue
-			}
-			n := fd.Name.Name
-			if fd.Recv != nil && len(fd.Recv.List) == 1 {
-				t := fd.Recv.List[0].Type
-				if st, ok := t.(*ast.StarExpr); ok {
-					t = st.X
-				}
-				n = identName(t) + "." + n
-			}
-			if n == e.name {
-				found = fd
-			}
-		}
-		if found == nil {
-			return fmt.Errorf("plugin/federation/%s: function %s not found", e.file, e.name)
-		}
-		names = append(names, e.name)
-		hs = append(hs, fmt.Sprint(fnv64(stmtsSrc(fset, found.Body.List))))
+	names, hs, err := funcHashes(repo, filepath.Join("plugin", "federation"), fedFuncList)
+	if err != nil {
+		return err
 	}
 	defStrings(w, "the transcribed functions, in the order of `fedFuncsH`", "fedFuncNames", names)
 	fmt.Fprintf(w, "/-- FNV-1a-64 of the normalised body of each function -/\ndef fedFuncsH : List Nat :=\n  [%s]\n\n", strings.Join(hs, ", "))
 	return nil
+}
+
+// funcHashes fingerprints the bodies of the listed functions ("Recv.name" or "name"; "type T" = the declaration of type T).
+func funcHashes(repo, dir string, list []struct{ file, name string }) (names, hs []string, err error) {
+	fset := token.NewFileSet()
+	files := map[string]*ast.File{}
+	for _, e := range list {
+		f := files[e.file]
+		if f == nil {
+			f, err = parser.ParseFile(fset, filepath.Join(repo, dir, e.file), nil, 0)
+			if err != nil {
+				return nil, nil, err
+			}
+			files[e.file] = f
+		}
+		text, ok := "", false
+		for _, d := range f.Decls {
+			switch d := d.(type) {
+			case *ast.FuncDecl:
+				if d.Body == nil {
+					continue
+				}
+				n := d.Name.Name
+				if d.Recv != nil && len(d.Recv.List) == 1 {
+					t := d.Recv.List[0].Type
+					if st, isStar := t.(*ast.StarExpr); isStar {
+						t = st.X
+					}
+					n = identName(t) + "." + n
+				}
+				if n == e.name {
+					text, ok = stmtsSrc(fset, d.Body.List), true
+				}
+			case *ast.GenDecl:
+				if d.Tok == token.TYPE {
+					for _, sp := range d.Specs {
+						if ts := sp.(*ast.TypeSpec); "type "+ts.Name.Name == e.name {
+							text, ok = src(fset, ts.Type), true
+						}
+					}
+				}
+			}
+		}
+		if !ok {
+			return nil, nil, fmt.Errorf("%s/%s: %s not found", dir, e.file, e.name)
+		}
+		names = append(names, e.name)
+		hs = append(hs, fmt.Sprint(fnv64(text)))
+	}
+	return names, hs, nil
+}
+
+// WebSocket adapter (property C18, Model/WsConn.lean): the type and its three methods, and the handler that builds one
+// value per upgraded connection. The model is per connection: no state is shared between connections.
+var wsFuncList = []struct{ file, name string }{
+	{"server.go", "type wsConn"}, {"server.go", "wsConn.Close"}, {"server.go", "wsConn.Read"}, {"server.go", "wsConn.Write"},
+	{"server.go", "server.wsHandler"},
+}
+
+func init() {
+	register("WsFuncs", "bodies of the WebSocket adapter functions Model/WsConn.lean transcribes (server/server.go)", func(repo string, w *bytes.Buffer) error {
+		names, hs, err := funcHashes(repo, "server", wsFuncList)
+		if err != nil {
+			return err
+		}
+		defStrings(w, "the transcribed declarations, in the order of `wsFuncsH`", "wsFuncNames", names)
+		fmt.Fprintf(w, "/-- FNV-1a-64 of the normalised text of each -/\ndef wsFuncsH : List Nat :=\n  [%s]\n\n", strings.Join(hs, ", "))
+		return nil
+	})
 }
